@@ -306,3 +306,114 @@ def scenarios():
     out += [decrypt_keyblob_base(u) for u in (254, 255)]
     out += [decrypt_keyblob_alg(c) for c in ('RSAPriv', 'DSAPriv', 'ElGPriv', 'ECDSAPriv', 'EdDSAPriv', 'ECDHPriv')]
     return out
+
+
+def key_protect():
+    """PGPKey.protect: refused (with a warning, nothing touched) on public keys and on locked keys; otherwise EVERY component's secret
+    material is encrypted with the given passphrase and algorithms"""
+    label = 'C06/PGPKey.protect'
+    KEY, PKT = 'pgpy.pgp.PGPKey', 'pgpy.packet.packets.PrivKeyV4'
+
+    def gen(repo):
+        r = scn.Run(repo, KEY, 'protect', label)
+        ex, st = r.ex, r.st
+        public, protected, unlocked = z3.Bools('is_public is_protected is_unlocked')
+        me = E.VObj(KEY, 'key')
+        subs = [E.VObj(KEY, 'sub%d' % i) for i in range(2)]
+        r.hook(KEY, 'is_public', scn.const(E.VBool(public)))
+        r.hook(KEY, 'is_protected', scn.const(E.VBool(protected)))
+        r.hook(KEY, 'is_unlocked', scn.const(E.VBool(unlocked)))
+        r.hook(KEY, 'subkeys', scn.const(E.VDict([(E.VStr(s='id%d' % i), x) for i, x in enumerate(subs)])))
+        for x in [me] + subs:
+            r.set(x.ref, '_key', E.VObj(PKT, 'pkt-' + x.ref))
+        PW, ENC, HASH = E.VStr(z=z3.Const('PASSPHRASE', E.BYTES)), E.VExt('cipher', ()), E.VExt('hash', ())
+
+        def pkt_protect(ex, st, o, a):
+            st.ghost['protected'] = st.ghost.get('protected', ()) + ((o.ref, a),)
+            return [(st, E.VNone())]
+        r.hook(PKT, 'protect', scn.method_hook(pkt_protect))
+
+        def warn(ex, st, o, a):
+            st.ghost['warned'] = st.ghost.get('warned', 0) + 1
+            return [(st, E.VNone())]
+        ex.hooks[('ext', 'warnings.warn')] = warn
+        for pi, (s, v) in enumerate(r.call(me, [PW, ENC, HASH])):
+            if isinstance(v, E.Raise):
+                r.oblige(s, 'safety(%s)/p%d' % (v.exc.split(':')[0], pi), z3.BoolVal(False), v.where)
+                continue
+            done = s.ghost.get('protected', ())
+            refused = z3.Or(public, z3.And(protected, z3.Not(unlocked)))
+            r.oblige(s, 'public-or-locked-key:nothing-is-touched-and-a-warning-is-given/p%d' % pi,
+                     z3.Implies(refused, z3.BoolVal(len(done) == 0 and s.ghost.get('warned', 0) == 1)))
+            r.oblige(s, 'otherwise:primary-and-every-subkey-packet-protected-once,with-the-given-passphrase-and-algorithms/p%d' % pi,
+                     z3.Implies(z3.Not(refused), z3.BoolVal([d[0] for d in done] == ['pkt-key', 'pkt-sub0', 'pkt-sub1']
+                                                            and all(d[1][0] is PW and d[1][1] is ENC and d[1][2] is HASH for d in done))))
+        return r.result()
+    return Scenario(label, KEY + '.protect', gen, props=('C06', 'C15'))
+
+
+def packet_protect():
+    """PrivKeyV4.protect / unprotect / protected / unlocked"""
+    label = 'C06/PrivKeyV4.protect+unprotect+protected+unlocked'
+    PKT, KM = 'pgpy.packet.packets.PrivKeyV4', 'pgpy.packet.fields.RSAPriv'
+
+    def gen(repo):
+        obls, funcs, paths = [], [], 0
+        PW, ENC, HASH = E.VStr(z=z3.Const('PASSPHRASE', E.BYTES)), E.VExt('cipher', ()), E.VExt('hash', ())
+        for fn in ('protect', 'unprotect'):
+            r = scn.Run(repo, PKT, fn, label + '[%s]' % fn)
+            ex, st = r.ex, r.st
+            r.set('pkt', 'keymaterial', E.VObj(KM, 'km'))
+
+            def rec(name):
+                def h(ex, st, o, a):
+                    st.ghost['events'] = st.ghost.get('events', ()) + ((name, o.ref, a),)
+                    return [(st, E.VNone())]
+                return h
+            r.hook(KM, 'encrypt_keyblob', scn.method_hook(rec('encrypt_keyblob')))
+            r.hook(KM, 'decrypt_keyblob', scn.method_hook(rec('decrypt_keyblob')))
+            r.hook('pgpy.packet.types.Packet', 'update_hlen', scn.method_hook(rec('update_hlen')))
+            r.hook('pgpy.packet.types.VersionedPacket', 'update_hlen', scn.method_hook(rec('update_hlen')))
+            for pi, (s, v) in enumerate(r.call(E.VObj(PKT, 'pkt'), [PW, ENC, HASH] if fn == 'protect' else [PW])):
+                paths += 1
+                if isinstance(v, E.Raise):
+                    r.oblige(s, 'safety(%s)/p%d' % (v.exc.split(':')[0], pi), z3.BoolVal(False), v.where)
+                    continue
+                ev = s.ghost.get('events', ())
+                if fn == 'protect':
+                    r.oblige(s, 'the-secret-material-is-encrypted-with-the-given-arguments,THEN-the-packet-length-is-recomputed/p%d' % pi,
+                             z3.BoolVal([e[0] for e in ev] == ['encrypt_keyblob', 'update_hlen'] and ev[0][1] == 'km'
+                                        and ev[0][2][0] is PW and ev[0][2][1] is ENC and ev[0][2][2] is HASH and ev[1][1] == 'pkt'))
+                else:
+                    r.oblige(s, 'the-secret-material-is-decrypted-with-the-given-passphrase/p%d' % pi,
+                             z3.BoolVal([e[0] for e in ev] == ['decrypt_keyblob'] and ev[0][1] == 'km' and ev[0][2][0] is PW))
+            res = r.result()
+            obls += res['obligations']
+            funcs += res['funcs']
+        # protected <=> an S2K specifier is in use; unlocked <=> not protected, or no secret integer is the wiped value 0
+        r = scn.Run(repo, PKT, 'unlocked', label + '[unlocked]')
+        ex, st = r.ex, r.st
+        inuse = z3.Bool('s2k_in_use')
+        r.set('pkt', 'keymaterial', E.VObj(KM, 'km'))
+        r.set('km', 's2k', E.VObj('pgpy.packet.fields.String2Key', 's2k'))
+        r.hook('pgpy.packet.fields.String2Key', '__bool__', scn.method_hook(lambda ex, st, o, a: [(st, E.VBool(inuse))]))
+        vals = [z3.Int('mpi%d' % i) for i in range(6)]
+        st.pc += [x >= 0 for x in vals]
+        r.hook(KM, '__iter__', scn.method_hook(lambda ex, st, o, a: [(st, ex.new_list(st, [E.VInt(x, enum='pgpy.packet.types.MPI') for x in vals]))]))
+        for pi, (s, v) in enumerate(r.call(E.VObj(PKT, 'pkt'), [])):
+            paths += 1
+            if isinstance(v, E.Raise):
+                r.oblige(s, 'safety(%s)/p%d' % (v.exc.split(':')[0], pi), z3.BoolVal(False), v.where)
+                continue
+            r.oblige(s, 'unlocked-iff-not-protected-or-no-integer-of-the-material-is-the-wiped-value-0/p%d' % pi,
+                     ex.truth(v, s) == z3.Or(z3.Not(inuse), z3.And(*[x != 0 for x in vals])))
+        res = r.result()
+        return {'obligations': obls + res['obligations'], 'funcs': funcs + res['funcs'], 'paths': paths}
+    return Scenario(label, PKT + '.protect', gen, props=('C06', 'C08'))
+
+
+_base_scn_kp = scenarios
+
+
+def scenarios():
+    return _base_scn_kp() + [key_protect(), packet_protect()]
